@@ -24,6 +24,7 @@ class OptimizerMixin:
         self._scheduler = None
         self._optimizer_params = {}
         self._scheduler_params = {}
+        self._scheduler_num_iter = None  # horizon the current scheduler was built for
         # Don't call super().__init__() in mixin classes to avoid MRO issues
 
     @property
@@ -131,6 +132,8 @@ class OptimizerMixin:
         """Set the scheduler for this model."""
         if scheduler_params is not None:
             self.scheduler_params = scheduler_params
+        if num_iter is not None:
+            self._scheduler_num_iter = num_iter
 
         if not self._scheduler_params or self._optimizer is None:
             self._scheduler = None
@@ -221,7 +224,8 @@ class OptimizerMixin:
     def reset_optimizer(self) -> None:
         """Reset the optimizer and scheduler."""
         self.set_optimizer(self._optimizer_params)
-        self.set_scheduler(self._scheduler_params)
+        # same horizon as the scheduler being replaced: a run repeated after the reset follows the same schedule
+        self.set_scheduler(self._scheduler_params, getattr(self, "_scheduler_num_iter", None))
 
     def reconnect_optimizer_to_parameters(self) -> None:
         """
